@@ -20,6 +20,11 @@ SIZES = {  # tier -> (random bytes, template instructions, chunk size)
 }
 
 
+RANGE = ["0x401000", "0x401008"]
+RANGE_RULE = "config:\n  valid_addr_range:\n    min: '0x401000'\n    max: '0x401008'\npattern:\n- nop\n"
+INTEL_RULE = "config:\n  style: intel\npattern:\n- nop\n"
+
+
 def design_level(report, tier):
     for mod, cfg, must_fail in (("MC_Encode", "MC_Encode.cfg", False),
                                 ("MC_Encode", "MC_Encode_control.cfg", True),
@@ -44,6 +49,19 @@ def part_a(report, prop, tier):
     texts = ["\n".join(x["lines"]) + "\n" for x in items]
     obs = parsepipe.parse_texts(texts, f"{prop}a")
     cases = [parsepipe.case("abs", x["lines"], x["listing"], o) for x, o in zip(items, obs)]
+    if prop == "C08":
+        # the same listings with the library's logger at DEBUG level (`jasm --debug`): logging must not change the stream
+        obs_d = parsepipe.parse_texts(texts, f"{prop}ad", debug_level=True)
+        cases += [parsepipe.case("abs", x["lines"], x["listing"], o) for x, o in zip(items, obs_d)]
+    if prop == "C10":
+        # the same listings under a rule with valid_addr_range: tagging rewrites operands, it never removes a record
+        obs_r = parsepipe.parse_texts(texts, f"{prop}ar", rule=RANGE_RULE)
+        cases += [parsepipe.case("range", x["lines"], x["listing"], o, x["lines"], o2, RANGE) for x, o, o2 in zip(items, obs, obs_r)]
+    if prop == "C09":
+        # another rule (with `style: intel') is compiled between this rule's compilation and its matching: the listing
+        # is AT&T text whatever rule was compiled last
+        obs_i = parsepipe.parse_texts(texts, f"{prop}ai", interleave=INTEL_RULE)
+        cases += [parsepipe.case("abs", x["lines"], x["listing"], o) for x, o in zip(items, obs_i)]
     verdicts = parsepipe.validate(cases, report, f"{prop}a")
     return cases, verdicts
 
@@ -96,7 +114,7 @@ def part_b(report, prop, tier):
 def scale_cases(block, tier):
     """Texts of 10^3 .. 10^5+ lines: a label line and the block repeated K times.  For the large ones the label
     name is sized so that a line ends exactly at character 2**20 of the text (and 2**21 ...)."""
-    ks = [1, 255, 4100] if tier == "quick" else [1, 255, 256, 4100, 9000, 37500]
+    ks = [1, 255, 4100, 12500] if tier == "quick" else [1, 255, 256, 4100, 9000, 37500]
     out = []
     body = "".join(l + "\n" for l in block)
     ends = []
